@@ -766,7 +766,8 @@ class CompleteBipartiteGraph(BipartiteGraph):
         return (1 <= u <= self.lorder and 1 <= v <= self.rorder)
 
     def add_edge(self, u, v):
-        pass
+        if not (1 <= u <= self.lorder and 1 <= v <= self.rorder):
+            raise ValueError("Invalid choice of vertices")
 
     def number_of_edges(self):
         return self.lorder * self.rorder
